@@ -322,6 +322,9 @@ func (sfd *StatusFileData) UpdateFullStatus(filename string, statusFunc func(*St
 	}
 	verifCrashPoint("update.after_load")
 	verifOldState, verifOldSize := sfd.State, sfd.StdoutSize
+	if size == 0 {
+		verifOldState, verifOldSize = -2, -2 // no stored record was found: the file is new or empty
+	}
 	statusFunc(sfd)
 	verifStatusWrite(filename, verifOldState, verifOldSize, sfd.State, sfd.StdoutSize, sfd.Detail)
 	_, err = file.Seek(0, 0)
